@@ -133,6 +133,33 @@ Theorem C17_nm_perc_only_failure_is_KeyError :
   nm_perc X Z xi zeta transmission g = Err e -> e = KeyErr.
 Proof. exact nm_perc_err. Qed.
 
+(* the directed / non-Markovian estimators apply the same computation to the
+   percolated graph: [estimator_ok H f] is literally the statement of
+   C17_estimator_formula for the digraph H and the estimator f (unfolded below) *)
+Theorem C17_estimator_ok_is_the_formula :
+  forall H f, estimator_ok H f <->
+  exists L, sccs H = Ok L /\ largest L <> [] /\
+  forall k j c u, nth_error (largest L) k = Some c -> nth_error c j = Some u ->
+    is_scc H c /\ (forall c', is_scc H c' -> c' <> [] -> (length c' <= length c)%nat) /\
+    exists a b,
+      f k j = Ok (frac a (length (gnodes H)), frac b (length (gnodes H))) /\
+      card_of (fun x => In x (gnodes H) /\ exists y, In y c /\ fwd H x y) a /\
+      card_of (fun x => exists y, In y c /\ fwd H y x) b /\
+      (0 <= frac a (length (gnodes H)) /\ frac a (length (gnodes H)) <= 1) /\
+      (0 <= frac b (length (gnodes H)) /\ frac b (length (gnodes H)) <= 1).
+Proof. exact (fun H f => iff_refl _). Qed.
+
+Theorem C17_estimate_nonMarkov_with_timing_formula :
+  forall (dur : node -> xtime) (delay : node -> node -> xtime) g, wf_graphb g = true -> gnodes g <> [] ->
+  estimator_ok (to_graph (nm_perc_timing dur delay g true)) (estimate_nonMarkov_with_timing dur delay g).
+Proof. exact (fun dur delay g H => estimate_with_timing_ok dur delay g (wf_graphb_wfg g H)). Qed.
+
+Theorem C17_estimate_nonMarkov_formula :
+  forall (X Z : Type) (xi : node -> option X) (zeta : node -> option Z) (transmission : X -> Z -> bool) g h,
+  wf_graphb g = true -> gnodes g <> [] -> nm_perc X Z xi zeta transmission g = Ok h ->
+  estimator_ok (to_graph h) (estimate_nonMarkov X Z xi zeta transmission g).
+Proof. exact (fun X Z xi zeta tr g h H => estimate_nonMarkov_ok X Z xi zeta tr g h (wf_graphb_wfg g H)). Qed.
+
 (* directed_percolate_network (expovariate rules).  For ALL values the calls to
    expovariate may return, presented as rules dur / delay (a drawn number exactly when
    the rate is positive, otherwise Inf: the boolean predicate [drawn]): run on those
@@ -202,6 +229,9 @@ Print Assumptions C17_nm_perc_timing_calls.
 Print Assumptions C17_nm_perc_spec.
 Print Assumptions C17_nm_perc_succeeds.
 Print Assumptions C17_nm_perc_only_failure_is_KeyError.
+Print Assumptions C17_estimator_ok_is_the_formula.
+Print Assumptions C17_estimate_nonMarkov_with_timing_formula.
+Print Assumptions C17_estimate_nonMarkov_formula.
 Print Assumptions C17_directed_percolate_network_is_timing_builder.
 Print Assumptions C17_directed_percolate_network_shape.
 Print Assumptions C17_ex_wf.
